@@ -464,7 +464,10 @@ func runGenericEngine(name, rule string, args []string, gen func(*Rng, int) inte
 		}
 		cases = append(cases, x)
 	} else {
-		fs, _ := filepath.Glob(filepath.Join(corpus, "*.json"))
+		var fs []string
+		if corpus != "" {
+			fs, _ = filepath.Glob(filepath.Join(corpus, "*.json"))
+		}
 		for _, f := range fs {
 			if x, err := load(f); err == nil {
 				cases = append(cases, x)
